@@ -111,3 +111,14 @@ func knownFindingJobs() []*job {
 			Stmts: []string{"DECLARE f FUNCTION (@n) AS BEGIN RETURN f(@n + 1); END", "SELECT f(a) FROM t"}, SmallLimit: true},
 	}
 }
+
+// thoroughKnownFindingJobs: reproducers of known constructions that only the thorough tier runs.
+// F97: a prepared statement whose text executes the statement itself nests Processor.ExecuteStatement without end (no
+// nesting limit, the class of F83 / F84); under the small address-space limit the runtime gives up within seconds
+// while the stack grows (recognised by >= 10 nested ExecuteStatement frames of a program that PREPAREs a text with EXECUTE).
+func thoroughKnownFindingJobs() []*job {
+	return []*job{
+		{Group: "corpus", Tags: []string{"corpus:F97 a prepared statement that executes itself"}, Stmts: []string{"PREPARE st FROM 'EXECUTE st'", "EXECUTE st"}, SmallLimit: true, Timeout: 10 * time.Second},
+		{Group: "corpus", Tags: []string{"corpus:F97 two prepared statements that execute each other"}, Stmts: []string{"PREPARE a FROM 'EXECUTE b USING 1'", "PREPARE b FROM 'EXECUTE a'", "EXECUTE a"}, SmallLimit: true, Timeout: 10 * time.Second},
+	}
+}
